@@ -53,7 +53,8 @@ struct MemDrv {
         A a;
         unsigned char* c = reinterpret_cast<unsigned char*>(a.data());
         ++serial;
-        for (unsigned i = 0; i < N * W; ++i) c[i] = (unsigned char) (1 + ((i * 37 + serial * 13) % 251));   // every byte value, also >= 0x80 (sign extension bugs)
+        // two families of data, alternating: all bytes < 0x80 / all bytes >= 0x80 (sign-extension mistakes in one `case n:`)
+        for (unsigned i = 0; i < N * W; ++i) c[i] = (unsigned char) ((1 + ((i * 37 + serial * 13) % 126)) | ((serial & 1) ? 0x80 : 0));
         return a;
     }
     static void fill_sentinels(unsigned char* p, std::size_t n) {
@@ -107,6 +108,11 @@ struct MemDrv {
     //--------------------------------------------------------------------
     template<class F>
     void one_load(const char* form, unsigned long n, bool aligned, int which, F f) {
+        one_load1(form, n, aligned, which, f);
+        one_load1(form, n, aligned, which, f);     // second call: the other data family
+    }
+    template<class F>
+    void one_load1(const char* form, unsigned long n, bool aligned, int which, F f) {
         const std::size_t k = std::size_t(n < N ? n : N) * W;
         if (which == 3 && k != 0) return;
         Place pl = place(which, k, aligned, W);
